@@ -104,6 +104,9 @@ func (P *Prog) VerifyFunc(f *ssa.Function, c *Contract) *Trans {
 	for _, r := range c.Requires {
 		t.assume("true", sc0.expandBool(r.Expr))
 	}
+	for _, m := range c.Maintains {
+		t.assume("true", sc0.expandBool(m.Expr))
+	}
 	// reveal: instances of definitional axioms of opaque spec functions
 	for _, rv := range c.Extra["reveal"] {
 		t.assume("true", revealInstance(sc0, rv))
@@ -126,6 +129,9 @@ func (P *Prog) VerifyFunc(f *ssa.Function, c *Contract) *Trans {
 		}
 		g := post.expandBool(e.Expr)
 		t.oblige("post", fmt.Sprintf("%s#post.%s", fr.path, labelOr(e.Label, "ens")), tagsOr(e.Tags, fr.tags), retCond, g, f.Pos(), "postcondition "+e.Label)
+	}
+	for _, m := range c.Maintains {
+		t.oblige("post", fmt.Sprintf("%s#post.maintains.%s", fr.path, labelOr(m.Label, "inv")), tagsOr(m.Tags, fr.tags), retCond, post.expandBool(m.Expr), f.Pos(), "closure invariant "+m.Label+" is re-established")
 	}
 	// frame obligations
 	t.frameObligations(fr, stF, st0, retCond)
